@@ -223,7 +223,9 @@ fn configurations(quick: bool) -> Vec<Cfg> {
         product(&mut out, Part::Full, &pick[..1], &[3], &[(CacheK::No, false)], &[Mode::Ok], false);
         product(&mut out, Part::Full, &pick[1..], &[3], &[(CacheK::Map, false)], &[Mode::Ok], false);
     } else {
-        product(&mut out, Part::Full, &three_small, &[3], &[(CacheK::No, false), (CacheK::Map, false), (CacheK::Lru2, true)], &[Mode::Ok], false);
+        let singles: Vec<Vec<Vec<i32>>> = three_small.iter().filter(|f| f.iter().all(|r| r.len() == 1)).cloned().collect();
+        product(&mut out, Part::Full, &singles, &[3], &[(CacheK::No, false), (CacheK::Map, false), (CacheK::Lru2, true)], &[Mode::Ok], false);
+        product(&mut out, Part::Full, &pick[1..], &[3], &[(CacheK::No, false), (CacheK::Map, false), (CacheK::Lru2, true)], &[Mode::Ok], false);
         product(&mut out, Part::Full, &pick, &[2], &[(CacheK::No, false)], &[Mode::Ok], false);
     }
     // every order of environment events: all 2-request configurations, and the 3-request ones
@@ -602,7 +604,7 @@ pub fn run(cx: &Cx) {
         "execution = (configuration, schedule). Configuration = 2–3 requests (non-empty key sets ⊆ {0,1,2}, at least two sharing a key) × max_batch_size {1,2,3} \
          × cache {NoCache, HashMapCache, HashMapCache+feed(2), LruCache(2), LruCache(2)+feed(2)} × loader {ok, partial (no key 1), every batch fails, first batch fails} × cancellation {none, drop request i while in flight}. \
          Part 'full' (Policy::Full): every order of runnable tasks and environment events (timer gates, batch completions, cancellation: exhaustive) with at most B preemptions, for every 2-request configuration \
-         (quick: with cancellation only for {NoCache, LruCache(2)+feed} × {ok, first batch fails}) and for 3-request configurations at max_batch_size 3 (quick: 2; thorough: every family with ≤ 4 keys in total × 3 caches, plus 2 at max_batch_size 2). \
+         (quick: with cancellation only for {NoCache, LruCache(2)+feed} × {ok, first batch fails}) and for 3-request configurations at max_batch_size 3 (quick: 2; thorough: the 9 families of three single-key requests and {0},{1},{0,1}, × 3 caches, plus 2 at max_batch_size 2). \
          Part 'event-orders' (Policy::Eager, one arrival gate per request): every order of request arrivals, timer firings, batch completions and the cancellation, for every 2-request and 3-request configuration (quick: 3-request families with ≤ 4 keys in total). \
          Non-trivial = distinct (configuration, outcome) in which a batch served two requests at once or a key was answered from the cache without a loader call.",
     );
